@@ -290,7 +290,7 @@ Definition w0 : world :=
   mkWorld [(nm "I0", []); (nm "I1", [0]); (nm "I2", []); (nm "I3", [])]
           [(nm "C0", []); (nm "C1", [0]); (nm "C2", [1]); (nm "C3", [1; 0]);
            ((str_of_string "builtins", str_of_string "complex"), [])]
-          [(2, [7%Z]); (3, [])] [4].
+          [(2, [7%Z]); (3, [])] [4] [] [].
 
 (* @implementer(I1) C0; @implementer_only(I2) C1; classImplementsFirst(C3, I3); implementedBy(C2);
    @provider(I2) C0 *)
@@ -409,4 +409,26 @@ Example C13_witness_builtin_and_class_also_provides :
   option_map (reduce_cprov w0) (nth_error (st_cprovs st) 6)
     = Some (Call FClassProvides [ByName (nm "C0"); ByName g_type; ByName (nm "I3")]) /\
   obj_interfaces 11 w0 st (OCProv 6) = [3].
+Proof. vm_compute. repeat split. Qed.
+
+(* a class whose metaclass is not `type` (one that makes the class object falsy, say) declared with
+   an old-style `__implemented__ = I2` in its body: inherit = None from the start, the reduction
+   names the class, the ClassProvides names the metaclass *)
+Definition w1 : world :=
+  mkWorld [(nm "I0", []); (nm "I1", [0]); (nm "I2", [])]
+          [(nm "C0", []); (nm "Outer1.C1", [0])]
+          [(1, [])] [] [(0, nm "Falsy"); (1, nm "Falsy")] [(1, [2])].
+Example C13_witness_falsy_metaclass_oldstyle :
+  let st := run 8 w1 [OpImplementedBy 1; OpClassImplements 1 [0]; OpClassProvides 1 [1]] in
+  wf_globals w1 = true /\
+  option_map im_inherit (assoc_nat 1 (st_impl st)) = Some None /\
+  obj_interfaces 8 w1 st (OImpl 1) = [2; 0] /\
+  reduce_impl w1 (get_impl w1 st 1) = Call FImplementedBy [ByName (nm "Outer1.C1")] /\
+  snd (rebuild 8 w1 st (reduce_impl w1 (get_impl w1 st 1))) = Some (OImpl 1) /\
+  snd (rebuild 8 w1 st (reduce_impl_prefix w1 (get_impl w1 st 1))) = Some OEmpty /\
+  option_map (reduce_cprov w1) (nth_error (st_cprovs st) 2)
+    = Some (Call FClassProvides [ByName (nm "Outer1.C1"); ByName (nm "Falsy"); ByName (nm "I1")]) /\
+  option_map (fun qr => let '(s, y) := rebuild 8 w1 st (reduce_cprov w1 qr) in
+                        (y, option_map (obj_interfaces 8 w1 s) y)) (nth_error (st_cprovs st) 2)
+    = Some (Some (OCProv 3), Some [1]).
 Proof. vm_compute. repeat split. Qed.
